@@ -21,7 +21,7 @@ RULE = ("Hypothesis: base = well-formed sequence on 1-2 channels with time/key s
 ASSUMPTIONS = ["for a single-note channel change the result under ignore_channel is not specified by the statement and not checked",
                "trailing rests (total duration) are not an attribute the statement lists; partners always have equal content"]
 TIERS = {"quick": dict(shards=8, examples=1200, alt_ppqn=[480], alt_shards=2),
-         "thorough": dict(shards=16, examples=12000, alt_ppqn=[480, 7, 1000], alt_shards=4)}
+         "thorough": dict(shards=16, examples=12000, alt_ppqn=[480, 7, 1000], alt_shards=2)}
 
 FLAGS = ["ch", "ts", "ks", "vel"]
 OWNER = {"velocity": "vel", "ts_value": "ts", "ts_tick": "ts", "ts_add": "ts", "ts_remove": "ts",
@@ -100,7 +100,7 @@ def _case(draw):
             if attr == "pitch":
                 n[1] = draw(st.integers(70, 90))
             elif attr == "velocity":
-                n[4] = draw(st.integers(1, 127).filter(lambda v: v != n[4]))
+                n[4] = draw(st.one_of(st.integers(1, 127), st.sampled_from([0, 127, 1])).filter(lambda v: v != n[4]))
             elif attr == "channel1":
                 n[0] = draw(st.integers(5, 9))
             elif attr == "note_remove":
